@@ -66,6 +66,12 @@ class C12(Prop):
         """a task cancelled from outside while it joins a TaskGroup (inside nested timeout blocks) ends cancelled"""
         je = obs['join_end']
         if je is None:
+            # the joining task was cancelled inside the join and never ended: is it waiting for a member nobody cancelled?
+            fin = obs.get('final') or {}
+            if any(l[0] == 'cancelJ' for l, _ in obs['trace']) and fin.get('quiescent') and (fin.get('entered') or fin.get('exiting')) \
+                    and not fin.get('jdone') and fin.get('live_not_requested'):
+                return (f"a join cancelled from outside never ends: it waits for members {fin['live_not_requested']} "
+                        'that were never sent a cancellation (clean-up skipped for them)')
             return None
         cancelled_at = next((i for i, (l, sn) in enumerate(obs['trace']) if l[0] == 'cancelJ'), None)
         if cancelled_at is not None and cancelled_at < je['at'] and not je['joiner_cancelled']:
@@ -100,7 +106,7 @@ class C12(Prop):
         directed = [{'policy': pol, 'mode': mode, 'retain': False, 'init': [], 'tg': True, 'wrap': wrap,
                      'members': [{'react': r1, 'daemon': False}, {'react': 'reraise', 'daemon': d2}],
                      'actions': [['start']] + [['tick']] * 8 + [['cancelJ']] + [['tick']] * 24}
-                    for pol in ('all', 'any', 'object') for mode in ('join', 'aexit') for r1 in ('spawnd', 'spawn', 'slow')
+                    for pol in ('all', 'any', 'object') for mode in ('join', 'aexit') for r1 in ('spawnd', 'spawn', 'slow', 'veteran')
                     for d2 in (False, True) for wrap in ([], ['timeout'])]
         # directed: the cancellation lands in the window between a member's completion and the joining task's next
         # step - before / after the member's done-callback has queued it and released the semaphore
